@@ -15,3 +15,4 @@ open BHS.Props.C19
 #print axioms C19_log2_bracket
 #print axioms C19_log2_le_31
 #print axioms C19_log2_mono
+#print axioms C19_work_pos_iff_generated
